@@ -199,7 +199,7 @@ class ClipSim:
                # xarray's global LRU of open file handles: with a tiny cache every lazy read re-opens its file by path
                'file_cache_maxsize': rng.choice([1, 2, 128, 128])}
         env['penv'] = seams.gen_process_env(rng)
-        if rng.random() < (0.015 if not big else 0.006):
+        if rng.random() < (0.03 if not big else 0.008):
             # every lifetime of this plan is the main program of a fresh interpreter: another hash seed, sometimes -O
             env['fresh'] = {'flags': rng.choice([['-O'], ['-O'], []]), 'hashseed': rng.randrange(1, 100000)}
         nw = n_writes(world)
